@@ -36,8 +36,11 @@ RULE = (
     '-1..255.  Records: all pairs of instances per MutableRecord class '
     '(library + generated with inherited/str slots).  Vectors: all pairs '
     'over a component alphabet for every Vector subclass pair.  Aliases: '
-    'BFS to fixpoint over assignments through every alias of real packet '
-    'classes and synthetic hosts.  A case is non-trivial when it executes '
+    'BFS to fixpoint over assignments (through the alias and to the '
+    'underlying attributes) for every alias of real packet classes and a '
+    'synthetic host using every helper of minecraft/utility.py; a read of '
+    'an alias is judged once all its source attributes are assigned.  A '
+    'case is non-trivial when it executes '
     'at least one pyCraft operation; distinct = distinct (machine, history) '
     'or distinct input tuple, enumerated without repetition.')
 ASSUMPTIONS = [
@@ -53,7 +56,12 @@ ASSUMPTIONS = [
     'hash" is judged for them',
     'a flag value is representable iff it is an OR of members defined in the '
     'class\'s own namespace (UPPERCASE int attributes); for unrepresentable '
-    'values None is accepted and a returned string must still parse back',
+    'values None is accepted and a returned string must still parse back; '
+    'the literal \'0\' is accepted for value 0 only when the class defines '
+    'no zero-valued member (otherwise that member is the name of 0)',
+    'deleting through an alias, the exception type raised by a read-only '
+    '`descriptor`, repr() text and iteration order across inherited slots '
+    'are executed but not judged: the statement does not define them',
 ]
 
 UNSET = '<unset>'
@@ -545,7 +553,8 @@ class PlayerListMachine(Machine):
             for f in PL_FIELDS:
                 v = getattr(item, f, UNSET)
                 if f == 'properties' and isinstance(v, list):
-                    v = [[getattr(p, 'name', UNSET), getattr(p, 'value', UNSET),
+                    v = [[getattr(p, 'name', UNSET),
+                          getattr(p, 'value', UNSET),
                           getattr(p, 'signature', UNSET)] for p in v]
                 d[f] = v
             out[k] = d
@@ -672,7 +681,8 @@ class MapMachine(Machine):
     def view(mp):
         icons = getattr(mp, 'icons', UNSET)
         if isinstance(icons, list):
-            icons = [[getattr(i, 'type', UNSET), getattr(i, 'direction', UNSET),
+            icons = [[getattr(i, 'type', UNSET),
+                      getattr(i, 'direction', UNSET),
                       tolist(getattr(i, 'location', UNSET)),
                       getattr(i, 'display_name', UNSET)] for i in icons]
         px = getattr(mp, 'pixels', UNSET)
@@ -1268,7 +1278,8 @@ def position_case(ctx, flags, prior, vals, judge=True):
 
 def position_tuples(tier, seed):
     rnd = random.Random('pos/%d' % seed)
-    extra = [rnd.randrange(-8000, 8000) / 8.0, -360 - rnd.randrange(2880) / 8.0]
+    extra = [rnd.randrange(-8000, 8000) / 8.0,
+             -360 - rnd.randrange(2880) / 8.0]
     values = P_VALUES + extra
     out = []
     for ax in range(5):
@@ -1419,6 +1430,14 @@ def judge_flag(ctx, cls, members, reach, value, ident, case, group=None):
     if got == '0' and '0' not in table:
         parsed = 0
         ctx.outcome('flags: literal 0')
+        zero = [n for n, v in members if v == 0]
+        if zero and value == 0:
+            # '0' is the fallback for a class WITHOUT a name for zero
+            ctx.violation(
+                key + 'literal 0 although a zero member exists',
+                '%s.name_from_value(0) = \'0\', but member %s names that '
+                'value' % (ident, zero[0]), case())
+            return
     else:
         parsed = 0
         for part in got.split('|'):
@@ -1606,6 +1625,11 @@ def record_instances(cls, tier, seed):
             t[i] = UNSET
             partial.append(t)
         partial.append([UNSET] * n)
+        for i in range(n):      # twins of fully assigned [0, .., None, .., 0]
+            t = [0] * n
+            t[i] = UNSET
+            if t not in partial:
+                partial.append(t)
         if n > 1:
             t = [0] + list(base[1:])
             t[n - 1] = UNSET
@@ -1763,8 +1787,14 @@ def records_cross(ctx):
                         {'part': 'records-cross'})
             else:
                 ctx.outcome('records: different types compare unequal')
-        except TypeError:
+        except TypeError:   # unhashable field value
             pass
+        except Exception as e:
+            ctx.violation(
+                'records cross: == raises %s' % type(e).__name__,
+                'comparing fully assigned %s%r with %s%r raised %s: %s'
+                % (ca.__qualname__, va, cb.__qualname__, vb,
+                   type(e).__name__, e), {'part': 'records-cross'})
     ctx.count(n)
     ctx.note_distinct(n)
 
@@ -2049,15 +2079,6 @@ def helper_laws():
                                  None) != ['a', 'b']:
             return 'PrefixedArray.read_with_context mis-dispatched'
 
-    @law
-    def alias_deleters_delete_the_sources():
-        L = lib()
-        p = L.splay.PositionAndLookPacket(x=1, feet_y=2, z=3, yaw=4, pitch=5)
-        del p.position
-        if any(hasattr(p, a) for a in ('x', 'feet_y', 'z')) or \
-                not hasattr(p, 'yaw'):
-            return 'del position left %r' % (sorted(vars(p)),)
-        return None
     return laws
 
 
